@@ -118,34 +118,15 @@ def rt_xmr(a):
 
 
 def canon_xmr(a):
-    # C11: a *canonical* accepted string re-encodes to itself.  Overflowing blocks accepted by the current decoder
-    # are defect F2 (property C10); they show up as a model/implementation divergence (the model is the decoder with
-    # the block-value check), matched by f2_xmr_overflow below.
+    # every accepted string re-encodes to itself (blocks whose value overflows the block length -- the former defect
+    # F2 -- must be rejected with ValueError, which the correspondence with the model checks)
     s, = a
-    if not xmr_is_canonical(s):
-        return None
-    d = Base58XmrDecoder.Decode(s)
-    e = Base58XmrEncoder.Encode(d)
-    return None if e == s else "canonical string %r decodes to %s which re-encodes to %r" % (s, d.hex(), e)
-
-
-def f2_xmr_overflow(fn, args, record):
-    """F2: Base58XmrDecoder.Decode accepts a well-formed string (alphabet, possible length) in which some block's
-    Base58 value is >= 256^(block byte length); the model (checked decoder) raises ValueError."""
-    if fn != "xmr_decode" or record.get("kind") != "divergence":
-        return False
-    s = args[0]
-    if not isinstance(s, str) or any(c not in B58 for c in s) or xmr_blocks(s) is None or xmr_is_canonical(s):
-        return False
-    return record.get("model") == {"err": "ValueError"} and "ok" in record.get("impl", {})
-
-
-def f2_xmr_overflow_replay():
     try:
-        d = Base58XmrDecoder.Decode("zz")
+        d = Base58XmrDecoder.Decode(s)
     except ValueError:
-        return None
-    return "Base58XmrDecoder.Decode('zz') = 0x%s (re-encodes to %r)" % (d.hex(), Base58XmrEncoder.Encode(d))
+        return "canonical string %r rejected" % s if xmr_is_canonical(s) else None
+    e = Base58XmrEncoder.Encode(d)
+    return None if e == s else "accepted string %r decodes to %s which re-encodes to %r" % (s, d.hex(), e)
 
 
 FUNCS.update({
